@@ -559,8 +559,11 @@ def run_net(case, point):
 
 
 def build_tree(t):
-    from lcapy import R, C, L, V, I, Vdc, Idc, Vstep, Istep, Ser, Par
+    from lcapy import R, C, L, V, I, Vdc, Idc, Vstep, Istep, Vac, Iac, Ser, Par
     k = t[0]
+    if k in ('V', 'I') and t[1] == 'ac':
+        # ["V", "ac", amplitude, phase (a sympy expression in pi), omega]
+        return (Vac if k == 'V' else Iac)(sp.Rational(t[2]), sp.sympify(t[3]), sp.Rational(t[4]))
     if k == 'R':
         return R(sp.Rational(t[1]))
     if k == 'C':
@@ -579,6 +582,13 @@ def run_oneport(case, point):
     state.current_sign_convention = case.get('convention', 'passive')
     res = {'api': {}, 't': {}, 'load': {}, 'cct': {}}
     api, tm = res['api'], res['t']
+    if case.get('profile') == 'ac':
+        # every source of the tree is an ac source of the one angular frequency case['omega']: phasors, immittances at s = j omega
+        w = sp.Rational(case['omega'])
+        AC[0] = True
+        point['omega'] = w
+        point['s'] = sp.I * w
+        res['kind'] = 'ac'
     net = build_tree(case['tree'])
     res['repr'] = str(net)[:300]
     attempt(api, 'Voc', lambda: build_tree(case['tree']).Voc, point, tm)
@@ -616,12 +626,14 @@ def run_oneport(case, point):
         if 'th' in models:
             def lt():
                 th = models['th']
-                return {'vi': load_response(model_lines(case.get('profile'), point, th.Voc(lcapy.s).sympy, th.Z.sympy, None, None, 'thev', '1', '0') + ld, '1', '0', cur, point)}
+                V = srcexpr(th.Voc) if AC[0] else th.Voc(lcapy.s).sympy
+                return {'vi': load_response(model_lines(case.get('profile'), point, V, th.Z.sympy, None, None, 'thev', '1', '0') + ld, '1', '0', cur, point)}
             attempt(res['load'], 'thev', lt, point, tm)
         if 'nt' in models:
             def ln():
                 nt = models['nt']
-                return {'vi': load_response(model_lines(case.get('profile'), point, None, None, nt.Isc(lcapy.s).sympy, nt.Y.sympy, 'nort', '1', '0') + ld, '1', '0', cur, point)}
+                I = srcexpr(nt.Isc) if AC[0] else nt.Isc(lcapy.s).sympy
+                return {'vi': load_response(model_lines(case.get('profile'), point, None, None, I, nt.Y.sympy, 'nort', '1', '0') + ld, '1', '0', cur, point)}
             attempt(res['load'], 'nort', ln, point, tm)
     return res
 
